@@ -354,11 +354,42 @@ func runChannelSink(rc *RunCtx) {
 
 // ---------------------------------------------------------------- FileSink special paths
 
+// faultyStream stands for the process's stdout / stderr: it fails on plan (nothing written,
+// or a prefix written) like a closed pipe or a full disk behind a redirected stream.
+type faultyStream struct {
+	buf    *bytes.Buffer
+	n      int
+	fail   map[int]int // write number -> bytes taken before the error (0: none)
+	failed int
+}
+
+func (w *faultyStream) Write(p []byte) (int, error) {
+	w.n++
+	if k, ok := w.fail[w.n]; ok {
+		w.failed++
+		if k > len(p) {
+			k = len(p)
+		}
+		w.buf.Write(p[:k])
+		return k, errors.New("injected stream write error")
+	}
+	return w.buf.Write(p)
+}
+
 func runFileSinkSpecial(rc *RunCtx) {
 	tp := rc.Tape
 	sim := rc.Sim
 	var outBuf, errBuf bytes.Buffer
-	simrt.SimStdout, simrt.SimStderr = &outBuf, &errBuf
+	fso := &faultyStream{buf: &outBuf, fail: map[int]int{}}
+	fse := &faultyStream{buf: &errBuf, fail: map[int]int{}}
+	if tp.Choose(3, "stream-faults") == 0 {
+		for k := 0; k < 2; k++ {
+			wn := 1 + tp.Choose(6, "fail-write")
+			part := []int{0, 0, 3}[tp.Choose(3, "partial")]
+			fso.fail[wn], fse.fail[wn] = part, part
+		}
+	}
+	simrt.SimStdout, simrt.SimStderr = fso, fse
 	defer func() { simrt.SimStdout, simrt.SimStderr = nil, nil }()
 	path := []string{"/dev/null", "/dev/stdout", "/dev/stderr"}[tp.Choose(3, "path")]
 	sink := &el.FileSink{Path: path, FileName: "x.log", MaxBytes: tp.Choose(3, "mb") * 10}
@@ -373,8 +404,18 @@ func runFileSinkSpecial(rc *RunCtx) {
 			if hasFmt {
 				ev.Formatted[el.JSONFormat] = data
 			}
+			failedBefore := fso.failed + fse.failed
 			out, err := sink.Process(context.Background(), ev)
+			streamFailed := fso.failed+fse.failed > failedBefore
 			switch {
+			case streamFailed:
+				simrt.Probe("special.stream-write-failed")
+				if err == nil {
+					problems = append(problems, fmt.Sprintf("%s: the write to the stream failed, yet Process reported success", path))
+				}
+				want = nil // what the stream holds after a failed write is not judged
+				outBuf.Reset()
+				errBuf.Reset()
 			case path == "/dev/null":
 				if err != nil || out != nil {
 					problems = append(problems, fmt.Sprintf("/dev/null: Process returned (%v, %v)", out, err))
